@@ -35,6 +35,7 @@ def tag_of(body):
 def run_scenario(job):
     sid, seed, policy, ncallers, nreq, wrap, reconnect = job[:7]
     instant = job[7] if len(job) > 7 else False
+    stalled_reconnect = job[8] if len(job) > 8 else False
     hsmsrun.quiet_logging()
     simrt.install()
     import secsgem.common.protocol as cp
@@ -44,6 +45,9 @@ def run_scenario(job):
     line_funcs = [cp.Protocol.get_next_system_counter, cp.Protocol.send_and_waitfor_response,
                   cp.Protocol._get_queue_for_system, cp.Protocol._remove_queue, pd.ProtocolDispatcher.start,
                   pd.ProtocolDispatcher.stop, pd.ProtocolDispatcher._dispatcher_thread_function]
+    if stalled_reconnect:
+        import secsgem.hsms.protocol as hp0
+        line_funcs = line_funcs + [hp0.HsmsProtocol._process_received_data, pd.ProtocolDispatcher._receiver_thread_function]
     ev = []
     rec = {"id": sid, "ev": ev, "seed": seed, "policy": policy, "cfg": [ncallers, nreq, wrap, reconnect]}
     st = {"base": None, "cur": {}}
@@ -179,7 +183,56 @@ def run_scenario(job):
                 s.emit("InOther", id=unsol[0])
                 ep.link.feed(link.hsms_frame(stype=0, system=0x50000 + unsol[0], session=0, stream=1, function=1, wbit=True))
                 acted = True
-            if reconnect and not did_reconnect and rounds >= 2 and rng.random() < 0.4:
+            if reconnect and stalled_reconnect and not did_reconnect and rounds >= 2 and rng.random() < 0.4:
+                did_reconnect = True
+                # the link is lost while a send is blocked on a full socket; the new connection may be there before the
+                # blocked send comes back
+                s.advance(0.25)
+                gate = simrt.Event()
+                ep.link.stall_event = gate
+                ep.link.feed(link.hsms_frame(stype=5, system=0x60001))      # Linktest.req: its response is the send that blocks
+                s.advance(0.25)
+                rec["stalled_sends"] = ep.link.stalled
+                n0 = ep.link.closed_count
+                ep.link.abrupt_close = True       # the loss is reported without "disconnecting" (no Separate.req queued behind the send)
+                ep.link.peer_close()
+                s.run_until(lambda: ep.link.closed_count > n0, max_dt=7.0)      # longer than T6
+                ep.link.abrupt_close = False
+                rec["closed_while_send_blocked"] = bool(ep.link.closed_count > n0 and ep.cs == "NC")
+                if ep.link.closed_count > n0 and ep.cs == "NC":
+                    # the close sequence finished although the send is still blocked
+                    ev.append({"e": "Reconnect"})
+                    s.emit("Reconnect")
+                    for t in list(outstanding):
+                        if t not in answered:
+                            never.add(t)
+                    ep.link.stall_event = None
+                    select()
+                    gate.set()
+                    s.settle()
+                else:
+                    ep.link.stall_event = None
+                    gate.set()
+                    okc, _ = s.run_until(lambda: ep.cs == "NC" and ep.link.closed_count > n0, max_dt=20)
+                    if not okc:
+                        raise Machinery("close did not finish after the blocked send was released")
+                    ev.append({"e": "Reconnect"})
+                    s.emit("Reconnect")
+                    for t in list(outstanding):
+                        if t not in answered:
+                            never.add(t)
+                    select()
+                # several primaries in one segment right after the reconnect
+                chunk = b""
+                for _ in range(3):
+                    unsol[0] += 1
+                    ev.append({"e": "InOther", "id": f"u{unsol[0]}"})
+                    s.emit("InOther", id=unsol[0])
+                    chunk += link.hsms_frame(stype=0, system=0x50000 + unsol[0], session=0, stream=1, function=1, wbit=True,
+                                             body=b"\x01\x00" * rng.choice([0, 1, 7]))
+                ep.link.feed(chunk)
+                acted = True
+            elif reconnect and not did_reconnect and rounds >= 2 and rng.random() < 0.4:
                 did_reconnect = True
                 # let the dispatcher drain what arrived before the link is lost (messages still queued when the
                 # session ends are in flight at link loss; the property does not promise their delivery)
@@ -295,7 +348,7 @@ def run(ctx: Ctx):
     n = 120 if ctx.quick else 1500
     for i in range(1, n + 1):
         pol = ["pct", "random", "pct", "fifo"][i % 4]
-        jobs.append((i, rng.randrange(1 << 30), pol, rng.choice([2, 2, 3, 4]), rng.choice([1, 2]), i % 5 == 0, i % 3 == 0, i % 4 in (1, 2)))
+        jobs.append((i, rng.randrange(1 << 30), pol, rng.choice([2, 2, 3, 4]), rng.choice([1, 2]), i % 5 == 0, i % 3 == 0, i % 4 in (1, 2), i % 6 == 0))
     recs = pmap(run_scenario, jobs)
     bad = [r for r in recs if r["outcome"] != "done" or r.get("errors")]
     for r in bad[:3]:
@@ -325,8 +378,12 @@ def run(ctx: Ctx):
                            "what": f"TxMon clause '{v['clause']}' at event {v['at']} "
                                    f"({r['ev'][v['at'] - 1] if v['at'] else 'end of run'}); callers={r['cfg'][0]}"})
     trace_leg(ctx, wd, recs)
+    # after a reconnect there is still exactly one receive path: the receiver / dispatcher loops of 30 (300) histories with a
+    # reconnect (plain, and with the link lost while a send is blocked) validated against DispatcherLoops (model checked in C04)
+    from . import c04_trace
+    c04_trace.check(ctx, wd, pmap, only_reconnect=True)
     ctx.rule = ("scenarios = (callers 2-4, 1-2 requests each, counter start incl. wrap-around, optional reconnect) x peer behaviour "
-                "(reply order/lateness/omission, instant replies sent from inside the peer's receive of the request while the requesting thread is slow to resume, unsolicited primaries) x thread schedule (PCT depth 3 / random / fifo with line-level "
+                "(link loss while a send is blocked on a full socket, reply order/lateness/omission, instant replies sent from inside the peer's receive of the request while the requesting thread is slow to resume, unsolicited primaries) x thread schedule (PCT depth 3 / random / fifo with line-level "
                 "preemption in the counter, queue and dispatcher code); non-trivial = at least two callers received replies")
     ctx.assumptions += ["S1F3/S1F4 bodies carry the request tag; system bytes compared as seen on the wire"]
     return ctx.finish()
